@@ -25,7 +25,7 @@ import (
 
 func TestC13VirtualTime(t *testing.T) {
 	sub := lab.Sub("accounting-virtual-time", "rapid histories in virtual time against the real balancer with scripted backends: {request good/4xx/5xx/unreachable/abort-mid-body, request with an already cancelled client context, "+
-		"park a request in a backend in a drawn phase (before the response head / after the head and before any body byte / after body part k of n, k,n-k in 1..3), release it (good / 5xx resp. broken body), remove and re-register a backend (also while requests are parked in it), an operator's admin operation with whatever is in flight staying in flight (one event in ten, aimed two times of three at a name that has requests in flight: add a registered name again at the same address or at another one, add a new name - never beyond 999 names -, remove a name for good or until a later event adds it back, switch the strategy), advance 300ms..3s (..11s when a handler timeout is configured) across 1 s unhealthy windows and the 1 s breaker timeout}; in two cases of five server.timeouts.handler is 2..10 s instead of a day, so parked requests are cut off by it once virtual time passes their deadline (before the head: answered by the proxy; after the head / mid-body: response aborted) and end as one completed request of the backend they were sent to; passive checks (threshold 1-2, window 1 s) / limiter / breaker on or off, 5 strategies; the deployment has 1-999 names (1-3 most often, tens, hundreds, and 850-999: just below the documented 1000-name cap of the per-backend metrics) in 6 naming styles; "+
+		"park a request in a backend in a drawn phase (before the response head / after the head and before any body byte / after body part k of n, k,n-k in 1..3), release it (good / 5xx resp. broken body), remove and re-register a backend (also while requests are parked in it), an operator's admin operation with whatever is in flight staying in flight (one event in ten, aimed two times of three at a name that has requests in flight: add a registered name again at the same address or at another one, add a new name - never beyond 999 names -, remove a name for good or until a later event adds it back, switch the strategy), advance 300ms..3s (..11s when a handler timeout is configured) across 1 s unhealthy windows and the 1 s breaker timeout}; in two cases of five server.timeouts.handler is 2..10 s instead of a day, so parked requests are cut off by it once virtual time passes their deadline (before the head: answered by the proxy; after the head / mid-body: response aborted) and end as one completed request of the backend they were sent to; passive checks (threshold 1-2, window 1 s) / limiter / breaker on or off, 5 strategies; the deployment has 1-999 names (1-3 most often, tens, hundreds, and 850-999: just below the documented 1000-name cap of the per-backend metrics) in 12 naming styles (round 9: names of 96 and 260 bytes that share all but their tail, names differing only in the middle, only in letter case or the last byte, names beyond ASCII, names of one or two bytes); "+
 		"in about two cases of five health_checks.active is on (Helios's own prober on its own ticker: interval 2/3/5/30 s, timeout 1-3 s, 4 health paths, unhealthy_timeout 0/1/3 s when passive checks are off; no limiter in these cases) and the health path of every backend answers in a drawn way {200, 404, 500, connection refused, nothing until the probe timeout}, changed by events of the history {health path of a backend answers differently from now on, a probe that is kept waiting is answered 200/500 before its timeout, advance across probe rounds / the probe timeout / the ejection window}: probes are no requests, so the same books must balance with them going on; "+
 		"books A1-A4 checked after every event, kept per name (/metrics: one entry per name, requests running in removed registrations included; /v1/backends: sum over the lines listed under the name = the requests in its registered backends; when an add of a listed name leaves the listing as long as it was - Helios lists the name once more - anything between those and those plus the ones in flight before the add), and once more on the idle balancer after everything still parked at the end of the history has been released (every gauge zero); non-trivial = an admin operation on a name with requests in flight, a request was still parked when its backend was ejected or re-admitted, a parked request ran into the handler timeout, a cancelled-context / aborted request occurred, or an active probe failed")
 	sub.NontrivialFloor(0.40)
